@@ -75,11 +75,14 @@ Drift_Toks(r) == r.haspred => [i \in DOMAIN r.toks |-> TokKey(r.toks[i])] = [i \
 Drift_Parse(r) == r.haspp => /\ (r.pp.k = "tree") = r.p1.ok
                              /\ (~r.p1.ok /\ r.pp.k = "err") => (r.p1.err.lines # <<>> /\ r.p1.err.lines[1] = r.pp.line)
 
+\* the canonical text SpokSyntax's printer model denotes for the structure vs what the real formatter wrote
+Drift_Fmt(r) == (r.haspf /\ r.p1.ok) => r.fmt = r.predfmt
+
 Bad(P(_)) == SetToSeq({i \in DOMAIN Recs : ~P(Recs[i])})
 ASSUME JsonSerialize("verdict.json",
   [Tiles_C16 |-> Bad(Tiles_C16), Total_C08 |-> Bad(Total_C08), AstEq_C06 |-> Bad(AstEq_C06),
    SemEq_C07 |-> Bad(SemEq_C07), FmtOnDisk_C07 |-> Bad(FmtOnDisk_C07), Idem_C11 |-> Bad(Idem_C11), Kept_C15 |-> Bad(Kept_C15),
-   Drift_Toks |-> Bad(Drift_Toks), Drift_Parse |-> Bad(Drift_Parse),
+   Drift_Toks |-> Bad(Drift_Toks), Drift_Parse |-> Bad(Drift_Parse), Drift_Fmt |-> Bad(Drift_Fmt),
    n |-> Len(Recs),
    nParsed |-> Cardinality({i \in DOMAIN Recs : Recs[i].p1.ok}),
    nErrors |-> Cardinality({i \in DOMAIN Recs : ~Recs[i].p1.ok}),
